@@ -220,7 +220,15 @@ func execVec5(c *v5Case) []string {
 	for _, kind := range v5Kinds {
 		tr := make([]comet.VectorNode, len(c.Train))
 		for i, t := range c.Train {
-			tr[i] = *comet.NewVectorNodeWithID(uint32(900000+i), core.FromBits(t))
+			// training nodes numbered far from the documents, or 0..n-1 / 1..n like documents
+			tid := uint32(900000 + i)
+			switch len(c.Train) % 3 {
+			case 1:
+				tid = uint32(i)
+			case 2:
+				tid = uint32(i + 1)
+			}
+			tr[i] = *comet.NewVectorNodeWithID(tid, core.FromBits(t))
 		}
 		if err := idx[kind].Train(tr); err != nil {
 			return append(lines, fmt.Sprintf("op panic train %s: %v", kind, err), "end")
@@ -343,7 +351,22 @@ func execVec5(c *v5Case) []string {
 			replayStale(cmd.ID)
 			runDeferred()
 		case "remove":
-			out := outcomes(func(kind string) error { return idx[kind].Remove(*comet.NewVectorNodeWithID(cmd.ID, nil)) })
+			// Remove goes by id: the node may carry no vector, a far-away one, or the stored one
+			var rmVec []float32
+			switch cmd.ID % 3 {
+			case 1:
+				rmVec = make([]float32, c.Dim)
+				for i := range rmVec {
+					rmVec[i] = float32(1000 * (i%2*2 - 1))
+				}
+			case 2:
+				if rv, ok := raw[cmd.ID]; ok {
+					rmVec = append([]float32(nil), rv...)
+				}
+			}
+			out := outcomes(func(kind string) error {
+				return idx[kind].Remove(*comet.NewVectorNodeWithID(cmd.ID, append([]float32(nil), rmVec...)))
+			})
 			lines = append(lines, fmt.Sprintf("op remove %d => %s", cmd.ID, out))
 			replayStale(cmd.ID)
 			runDeferred()
